@@ -39,7 +39,10 @@ def check(ctx):
     ctx.attempt(_mro_calls)
     ctx.attempt(forward.check_all, module_suffixes=('containers.containers', 'plssdesc.plssdesc'))
     ctx.attempt(common.clause_purity, [f for f in ctx.repo.funcs.values() if f.module.name.endswith(('trs.trs','containers.containers'))])
+    ctx.attempt(common.parallel_shapes, [f for f in ctx.repo.funcs.values() if f.module.name.endswith(('trs.trs','containers.containers'))])
     ctx.attempt(common.outparam_truthiness, [f for f in ctx.repo.funcs.values() if f.module.name.endswith('containers.containers')])
+    from .c12 import _eq_hash          # filter_duplicates relies on TRS equality / hashing
+    ctx.attempt(_eq_hash)
 
 
 def _entry_paths(ctx, base):
